@@ -504,6 +504,12 @@ class SqlImpl(TableImpl):
             query.select = [
                 col._uuid for col in query.partition_by if sqa_expr[col._uuid].name not in set(nd.names)
             ] + nd.uuids
+            if query.partition_by and not query.group_by:
+                # all grouping columns are constants (they cannot appear in GROUP BY): the
+                # only group does not exist if there are no rows
+                non_empty = ColFn(ops.count_star) > LiteralCol(0)
+                non_empty.ftype(agg_is_window=False)
+                query.having.append(non_empty)
             if not query.group_by:
                 query.agg_cols = {
                     uid
